@@ -15,14 +15,14 @@ Section Compose.
   Context {T : Type} `{Num T}.
   Local Open Scope num_scope.
   Variables (W Lg : Type).
-  Variable inner : W -> nat -> list T -> list T -> list T -> T -> list T -> option (inner_res * list T * Lg * W).
-  Variable P : alm_params.
-  Variable pb : alm_problem.
+  Variable inner : W -> nat -> list T -> list T -> list T -> T -> list T -> option (inner_res (T:=T) * list T * Lg * W).
+  Variable P : alm_params (T:=T).
+  Variable pb : alm_problem (T:=T).
 
   (* p.eval_proj_multipliers(y, params.max_multiplier) *)
-  Definition c_y_in (s : st) : list T := proj_multipliers (pb_split pb) (pb_lb pb) (pb_ub pb) (p_M P) (s_y s).
+  Definition c_y_in (s : st (T:=T)) : list T := proj_multipliers (pb_split pb) (pb_lb pb) (pb_ub pb) (p_M P) (s_y s).
   (* the loop-carried state after an iteration that does not exit (the `let s'` of Alm.alm_loop) *)
-  Definition c_next (i : nat) (s : st) (r : inner_res) : st :=
+  Definition c_next (i : nat) (s : st (T:=T)) (r : inner_res (T:=T)) : st (T:=T) :=
     let m := pb_m pb in
     let err := pick m (ir_err r) (s_err s) in
     let norm_e := vnorminf err in
@@ -33,10 +33,10 @@ Section Compose.
        s_fails := (s_fails s + (if is_converged (ir_status r) then 0 else 1))%nat;
        s_iters := (s_iters s + ir_iters r)%nat |}.
 
-  Record cres := mkC { c_script : list inner_res; c_logs : list Lg; c_x : list T; c_w : W }.
+  Record cres := mkC { c_script : list (inner_res (T:=T)); c_logs : list Lg; c_x : list T; c_w : W }.
 
   (* for (i = 0; i < max_iter; ++i): the loop goes on exactly when Alm.alm_loop would ask for another script element *)
-  Fixpoint c_loop (fuel i : nat) (s : st) (x : list T) (w : W) : option cres :=
+  Fixpoint c_loop (fuel i : nat) (s : st (T:=T)) (x : list T) (w : W) : option cres :=
     match fuel with
     | O => None
     | S f =>
@@ -64,7 +64,7 @@ Section Compose.
       end
     else c_loop fuel 0 (init_state P pb f0 g0 nanv Σ0 y0) x0 w0.
 
-  Record cout := mkCO { co_trace : list iter_rec; co_final : final; co_x : list T; co_logs : list Lg; co_w : W }.
+  Record cout := mkCO { co_trace : list (iter_rec (T:=T)); co_final : final (T:=T); co_x : list T; co_logs : list Lg; co_w : W }.
 
   Definition c_run (fuel : nat) (f0 : T) (g0 : list T) (nanv : T) (Σ0 : option (list T)) (y0 x0 : list T) (w0 : W) : option cout :=
     match c_script_of fuel f0 g0 nanv Σ0 y0 x0 w0 with
